@@ -397,7 +397,7 @@ func (g *sg) selectStmt(depth int, allowTail bool) string {
 			s += " " + g.kw("having") + " " + g.expr(depth-1)
 		}
 	}
-	if g.chance(2, 5, "trigger") {
+	if g.chance(1, 4, "trigger") {
 		n := 1 + g.pick(3, "ntrig")
 		ts := make([]string, n)
 		for i := range ts {
